@@ -14,9 +14,14 @@ META = {
             "(SendCacheFlush builds its own http.Client{Timeout} per call): for EVERY assignment of behaviours to the peers (answer, error "
             "status, hang-up, dead port, answer later than the timeout) the requests issued are the same and every active peer whose "
             "endpoint receives requests at all receives exactly one (C29_send_outcomes_isolated, C29_slow_peer_isolated), and the "
-            "broadcast goroutine is busy for at most 5 s x peers (C29_broadcast_time_bounded). The per-node functions are tied to "
+            "broadcast goroutine is busy for at most 5 s x peers (C29_broadcast_time_bounded); purges of ONE cache that overlap (a later "
+            "purge issued while the broadcast of an earlier one is still held up by a peer) are each announced on their own: every active "
+            "peer whose endpoint receives requests gets exactly one request per purge, n for n purges (C29_overlapping_purges_each_announced, "
+            "C29_burst_every_peer_counts; purge.go keeps nothing between purges). The per-node functions are tied to "
             "the code by a differential run of ONE real node in-process (cluster.Initialize, then caches.Purge/PurgeLocal/PurgeAll -> "
-            "OnPurge -> BroadcastCacheFlush over a real SQLite cluster table) against recording HTTP peers, and of a real "
+            "OnPurge -> BroadcastCacheFlush over a real SQLite cluster table, including bursts of 2-4 purges of one cache issued while a "
+            "gated peer sits on the first purge's request: each active peer must RECEIVE a flush after every purge was issued) "
+            "against recording HTTP peers, and of a real "
             "router.Router (flush route as declared in commands/server.go) + the real FlushCacheHandler on every recorded request "
             "(unchanged headers and body) and on hostile requests, plus a model-free oracle on the same runs. "
             "The model mirrors the code WITH fixes/C29.patch (SendCacheFlush sets Accept: application/json): as shipped, every flush "
@@ -50,6 +55,7 @@ REQUIRED = [
     "C29_no_rebroadcast_routed", "C29_no_accept_refused", "C29_unpatched_incomplete_counterexample",
     "C29_tags_faithful",
     "C29_send_outcomes_isolated", "C29_slow_peer_isolated", "C29_broadcast_time_bounded",
+    "C29_overlapping_purges_each_announced", "C29_burst_every_peer_counts", "C29_burst_fires_each",
 ]
 
 
@@ -140,7 +146,8 @@ def run(ctx):
         ctx.fail(f["class"], f["what"], input=f.get("input"), got=f.get("got"), want=f.get("want"))
     st = (ctx.read_jsonl("c29_stats.json") or [{}])[0]
     c = st.get("counters", {})
-    if rc == 0 and not ctx.replay_in and (c.get("lines.purge", 0) < 100 or c.get("lines.flush", 0) < 100 or c.get("requests", 0) < 100):
+    if rc == 0 and not ctx.replay_in and (c.get("lines.purge", 0) < 100 or c.get("lines.flush", 0) < 100 or c.get("requests", 0) < 100
+                                          or c.get("lines.burst", 0) < 40 or c.get("burst.parked", 0) < 10):
         ctx.broken.append("harness produced too few steps (%s)" % c)
     ctx.coverage.update({
         "evaluations": len(cases),
@@ -150,7 +157,12 @@ def run(ctx):
                 "ones in the thorough tier) peers that HOLD the request - one beyond the sender's 5 s timeout, or three for 1.75 s each - "
                 "before healthy peers in join order, "
                 "random join order, state flips between purges) and configuration (standalone, no DB, no hook, caches off); "
-                "non-trivial = at least one peer must and at least one row must not receive a request. flush lines: every request "
+                "non-trivial = at least one peer must and at least one row must not receive a request. burst lines: 2-4 Purge calls of "
+                "one cache on the node, from the second on issued while the first broadcast is parked at a 'gate' peer (an httptest peer "
+                "that sits on its request until the harness has issued the whole burst; 0-2 such rows at random places in the join order, "
+                "also inactive / foreign ones, next to 500/401/hang-up/dead peers; explicit gate, no sleeps); oracle: every active peer "
+                "receives a flush after each purge was issued; non-trivial = the node broadcasts, a broadcast parks at a gated peer and "
+                "there are at least 2 live peers. flush lines: every request "
                 "recorded by the peers replayed into FlushCacheHandler, plus generated requests (9 token kinds x 9 body classes x hop "
                 "counts -7..2^40); non-trivial = reaches the hop check or has a non-standard body. Counted: distinct protocol lines.",
         "samples": st.get("samples", []),
